@@ -9,6 +9,7 @@ import OFV.Model.C04
 import OFV.Spec.C04
 import OFV.Proofs.C04Term
 import OFV.Proofs.C04Sum
+import OFV.Proofs.C04OneBody
 
 namespace OFV.C04
 open OFV OFV.Spec OFV.Model OFV.Model.C04 OFV.Sem
@@ -141,6 +142,15 @@ theorem jw_majorana_exact (tol : Rat) (A : Model.MOp) (hok : jwMajoranaOk tol A 
   simp only [Function.comp]
   rw [this, den_cons, den_nil, add_zero]
 
+/-- **`jordan_wigner_one_body` is sound for all `p, q` and all complex `c`**: the strings
+`XZ…ZX, YZ…ZY, YZ…ZX, XZ…ZY` with coefficients `(Re c, Re c, Im c, −Im c)/2` (conjugated when `p > q`;
+`c/2 (1 − Z_p)` when `p = q`) act on every basis state like `c a†_p a_q + c̄ a†_q a_p` (`c a†_p a_p` on the
+diagonal), on every exact run. -/
+theorem jw_one_body_sound (tol : Rat) (p q : Nat) (c : GQ) (hok : jwOneBodyOk tol p q c = true) (m x : Nat) :
+    GV.coeff (applyOp .qubit (jwOneBody tol p q c) [m]) [x]
+      = GV.coeff (applyOp .fermion (Spec.C04.oneBodyOp p q c) [m]) [x] :=
+  jwOneBody_sound tol p q c hok m x
+
 /-! ### non-vacuity -/
 
 /-- the threshold the driver runs with satisfies the hypothesis of the theorems -/
@@ -157,6 +167,13 @@ example : ∀ f ∈ [(2, 1), (0, 3), (2, 2), (0, 3)], f.2 < 4 := by decide
 (`2 a†_1 a_0 - ½ a_0 a†_1 + i a†_2`), evaluated by the kernel on the Model with the live tolerance -/
 example : jwFermionOk Generated.eqTolerance
     [([(1, 1), (0, 0)], ⟨2, 0⟩), ([(0, 0), (1, 1)], ⟨-(mkRat 1 2), 0⟩), ([(2, 1)], ⟨0, 1⟩)] = true := by
+  decide +kernel
+
+/-- exact-regime hypothesis of `jw_one_body_sound` on concrete inputs: `p > q` with a complex coefficient,
+a purely imaginary one (two strings get coefficient 0 and are dropped exactly), and the diagonal -/
+example : jwOneBodyOk Generated.eqTolerance 5 2 ⟨mkRat 3 4, -2⟩ = true
+    ∧ jwOneBodyOk Generated.eqTolerance 0 3 ⟨0, mkRat 1 8⟩ = true
+    ∧ jwOneBodyOk Generated.eqTolerance 4 4 ⟨-1, 0⟩ = true := by
   decide +kernel
 
 end OFV.C04
